@@ -343,6 +343,9 @@ func (ex *Exec) indexAddr(xt types.Type, x Value, idx *term.T) Value {
 		case Array:
 			i := ex.concreteInt(idx, "array index")
 			return Ptr{Loc: &a[i]}
+		case *LazyArr:
+			i := ex.concreteInt(idx, "array index")
+			return Ptr{Loc: ex.lazyElem(a, i)}
 		case *term.T:
 			if isByteType(at.Elem()) {
 				*x.Loc = ex.intToBytes(a, at.Len())
@@ -372,6 +375,10 @@ func (ex *Exec) indexVal(xt types.Type, x Value, idx *term.T) Value {
 		ex.Oblige(ex.C.Ult(idx, ex.constInt(int64(len(a)))), "index out of range")
 		i := ex.concreteInt(idx, "array index")
 		return copyVal(a[i])
+	case *LazyArr:
+		ex.Oblige(ex.C.Ult(idx, ex.constInt(a.N)), "index out of range")
+		i := ex.concreteInt(idx, "array index")
+		return copyVal(*ex.lazyElem(a, i))
 	}
 	ex.unsupported(fmt.Sprintf("Index on %T", x))
 	return nil
@@ -446,6 +453,18 @@ func (ex *Exec) sliceOp(fr *frame, in *ssa.Slice) Value {
 				*x.Loc = ex.intToBytes(a, at.Len())
 				return Slice{Base: x.Loc, Byte: true, Off: lo, Len: ex.C.Sub(hi, lo), Cap: ex.C.Sub(capv, lo)}
 			}
+		case *LazyArr:
+			arr := make(Array, a.N)
+			for i := range arr {
+				if loc, ok := a.M[int64(i)]; ok {
+					arr[i] = *loc
+				} else {
+					arr[i] = ex.zero(a.ElemT)
+				}
+			}
+			*x.Loc = arr
+			vec := &Vec{E: arr}
+			return Slice{Vec: vec, Off: lo, Len: ex.C.Sub(hi, lo), Cap: ex.C.Sub(capv, lo)}
 		case Array:
 			// share storage: move the array's elements into a Vec aliasing the same backing
 			vec := &Vec{E: a}
